@@ -68,6 +68,8 @@ func infraFailure(o Sx) bool {
 	switch string(bytesOf(o.L[0])) {
 	case "listen-failed", "relisten-failed":
 		return true
+	case "tls-refusal-not-realised": // C13: the scripted TLS refusal did not take place as scripted (load): play it again
+		return true
 	case "dial-timeout": // C16: a loopback dial to a live listener exceeded the 1 s ConnectTimeout (machine starved)
 		return true
 	}
